@@ -30,6 +30,7 @@ ANCHORS = [
     'pycaption.geometry:Size.as_percentage_of', 'pycaption.geometry:Layout.as_percentage_of',
     'pycaption.geometry:Layout.fit_to_screen',
 ]
+THOROUGH_SCALE = 6        # random budgets of the thorough tier are multiplied by this
 REQUIRE = {'pairs_equal': 20, 'pairs_one_leaf_apart': 20, 'strings_checked': 1000,
            'strings_accepted': 5, 'receiver_checks_after_raise': 3,
            'layout_pairs_differing_only_in_webvtt_positioning': 10, 'cross_class_pairs_checked': 200}
